@@ -126,11 +126,21 @@ def _build(repo, flavour, out):
                 ["-DYYDEBUG=1", "-DYYFPRINTF=utapv_trace", "-include", os.path.join(HARNESS, "utapv_trace.h"),
                  "-c", os.path.join(HARNESS, "wrap_parser.cpp"), "-o", o])
     objs.append(o)
+    # private members of the builders that the state digest of harness/pm.cpp reads: only those the tree being built declares
+    btxt = ""
+    for h in ("ExpressionBuilder.hpp", "StatementBuilder.hpp", "DocumentBuilder.hpp", "AbstractBuilder.hpp"):
+        try:
+            btxt += open(os.path.join(repo, "include", "utap", h), errors="replace").read()
+        except OSError:
+            pass
+    members = ["-DUTAPV_M_" + nm for nm in ("scalar_count", "typeFragments", "currentTemplate", "params", "blocks", "fields", "labels", "currentFun",
+                                            "currentEdge", "currentQuery", "currentExpectation", "currentGantt", "currentIODecl", "currentProcPriority")
+               if re.search(r"\b%s\b" % nm, btxt)]
     hobjs = []
     for f in sorted(os.listdir(HARNESS)):
         if f.endswith(".cpp") and not f.startswith("wrap_") and not f.startswith("standalone_"):
             o = os.path.join(out, "obj", "h_" + f + ".o")
-            jobs.append(base + ["-fno-access-control", "-c", os.path.join(HARNESS, f), "-o", o])
+            jobs.append(base + members + ["-fno-access-control", "-c", os.path.join(HARNESS, f), "-o", o])
             hobjs.append(o)
     with concurrent.futures.ThreadPoolExecutor(max_workers=int(os.environ.get("UTAPV_JOBS", "16"))) as ex:
         rcs = list(ex.map(lambda c: _run(c, log), jobs))
